@@ -16,6 +16,8 @@ def check(I, fr, lname, names, entry, fresh, head, outs):
     fn = lname[0]
     if fn.endswith("strict::graph::kahn"):
         kahn_step(I, fr, lname, names, entry, fresh, head, outs)
+    if fn.endswith("::is_convex_subgraph"):
+        convex_step(I, fr, lname, names, entry, fresh, head, outs)
     if fn.endswith("::is_convex_subgraph") and DEBUG:
         for r, (place, v) in entry.items():
             print("CONVEX entry", names.get(r, r), repr(v)[:200])
@@ -89,3 +91,45 @@ def _mentions_inj_of(t, F):
             return True
         return any(_mentions_inj_of(x, F) for x in t)
     return False
+
+
+def _mentions(x, leaf_):
+    if x == leaf_:
+        return True
+    if isinstance(x, tuple):
+        return any(_mentions(y, leaf_) for y in x)
+    if isinstance(x, Poly):
+        return any(_mentions(a, leaf_) for a in x.atoms())
+    return False
+
+
+def convex_step(I, fr, lname, names, entry, fresh, head, outs):
+    """Two-layer reachability of is_convex_subgraph: the frontier of paths that already left the image (the loop-carried
+    sequence that starts EMPTY) may become the empty constant only when it has no successors left — an outside path in
+    progress is never abandoned.  (The search itself is not decided; this is the necessary condition a misplaced
+    emptiness shortcut breaks.)"""
+    f1 = None
+    for r, (place, v) in entry.items():
+        if isinstance(v, VSeq) and v.t == EMPTY:
+            f1 = r if f1 is None else f1
+    if f1 is None:
+        return
+    F1 = fresh[f1].t
+    place = entry[f1][0]
+    for (s, v, ctl) in outs:
+        if ctl not in (None, "continue"):
+            continue
+        post = I.read_place(s, place)
+        if not (isinstance(post, VSeq) and post.t == EMPTY):
+            continue
+        if s.eq(t_len(F1), 0):
+            ok = True
+        else:
+            atoms = set()
+            for k_, p_ in s.lin.facts:
+                for a_ in p_.atoms():
+                    if isinstance(a_, tuple) and a_ and a_[0] == "nuniq" and _mentions(a_[1], F1):
+                        atoms.add(a_)
+            ok = bool(atoms) and all(s.eq(Poly.atom(a_), 0) for a_ in atoms)
+        _ob(I, fr, "convexity search: the frontier of paths that left the image is emptied only when it has no successors",
+            "frontier1' = [] ⇒ frontier1 = [] or successors(frontier1) = []", ok, s)
